@@ -539,9 +539,15 @@ func (c *Chain) RunBlock(dt time.Duration, txs []Tx) (res BlockResult) {
 	}()
 	if res.Halt {
 		c.halted = true
+		if c.rec != nil {
+			c.rec.result(h, "", "", "", true)
+		}
 		return res
 	}
 	c.Height, c.Time = h, t
+	if c.rec != nil {
+		c.rec.result(h, hex.EncodeToString(fin.AppHash), c.StoreDigest(), ResultsDigest(fin.TxResults), false)
+	}
 	res.AppHash = fin.AppHash
 	res.Events = fin.Events
 	if c.snapErr != "" {
@@ -784,4 +790,14 @@ func (c *Chain) ExportGenesis(zeroHeight bool, prep func(ctx sdk.Context)) (out 
 		return nil, e
 	}
 	return gs, nil
+}
+
+// ResultsDigest hashes what C11 calls transaction results: code, codespace, data
+// (not events or logs).
+func ResultsDigest(txs []*abci.ExecTxResult) string {
+	h := sha256.New()
+	for _, t := range txs {
+		fmt.Fprintf(h, "%d|%s|%x\n", t.Code, t.Codespace, t.Data)
+	}
+	return hex.EncodeToString(h.Sum(nil))
 }
